@@ -704,9 +704,49 @@ def error_set(prog, callee):
                     okall = False
         t = f.term(b)
         if t["k"] == "call" and t["dest"]["local"] == 0:
-            okall = False
+            # `r?` with the same error type: the errors of r (a crate call, or - after inlining a helper - aggregates merged in a phi)
+            es = None
+            if (t.get("resolved") or t["callee"]).endswith("FromResidual<core::result::Result<core::convert::Infallible, E>>>::from_residual"):
+                a = fa.call_args(b)
+                x = a[0] if a else None
+                if x is not None and x.op == "field" and x.args[0].op == "downcast" and x.args[0].args[1] == 1 and x.args[0].args[0].op == "call" \
+                        and "Try>::branch" in str(x.args[0].args[0].args[0]):
+                    es = _errs_of_result_term(prog, fa, x.args[0].args[0].args[1][0], 0)
+            if es is None:
+                okall = False
+            else:
+                out |= es
     _ERRSETS[callee] = out if okall else None
     return _ERRSETS[callee]
+
+
+def _errs_of_result_term(prog, fa, r, depth):
+    """RtcmError variants a Result-valued term can carry in Err, or None"""
+    if depth > 4:
+        return None
+    if r.op == "agg" and r.args[2] == "Ok":
+        return set()
+    if r.op == "agg" and r.args[2] == "Err":
+        e = r.args[3][0]
+        return {e.args[1]} if e.op == "agg" and e.args[0] == "rtcm_error::RtcmError" else None
+    if r.op == "call" and isinstance(r.args[0], str) and r.args[0] in prog.fns and r.args[0] not in _ERRSETS_BUSY:
+        _ERRSETS_BUSY.add(r.args[0])
+        try:
+            return error_set(prog, r.args[0])
+        finally:
+            _ERRSETS_BUSY.discard(r.args[0])
+    if r.op == "phi":
+        out = set()
+        for pb, v in fa.phi_operands(r):
+            es = _errs_of_result_term(prog, fa, v, depth + 1)
+            if es is None:
+                return None
+            out |= es
+        return out
+    return None
+
+
+_ERRSETS_BUSY = set()
 
 
 # ------------------------------------------------------------------ capacity rules
